@@ -257,11 +257,11 @@ func c03Configs(c *Ctx) []c03Cfg {
 	for _, k := range kinds {
 		for _, fifo := range []bool{false, true} {
 			for _, cp := range caps {
-				out = append(out, c03Cfg{listCfg{k, fifo, cp, false, false, cp, false, false, false, 0, "", false, false}, "", false, false})
+				out = append(out, c03Cfg{listCfg{k, fifo, cp, false, false, cp, false, false, false, 0, "", false, false, 0}, "", false, false})
 				if k == "LIST" || k == "AND" || !c.Quick() {
-					out = append(out, c03Cfg{listCfg{k, fifo, cp, false, false, cp, false, false, false, 0, "", false, false}, "", true, false})
-					out = append(out, c03Cfg{listCfg{k, fifo, cp, false, false, cp, true, false, true, 0, "", false, false}, "", false, false})
-					out = append(out, c03Cfg{listCfg{k, fifo, cp, false, false, cp, false, false, false, 0, "", false, false}, "", false, true})
+					out = append(out, c03Cfg{listCfg{k, fifo, cp, false, false, cp, false, false, false, 0, "", false, false, 0}, "", true, false})
+					out = append(out, c03Cfg{listCfg{k, fifo, cp, false, false, cp, true, false, true, 0, "", false, false, 0}, "", false, false})
+					out = append(out, c03Cfg{listCfg{k, fifo, cp, false, false, cp, false, false, false, 0, "", false, false, 0}, "", false, true})
 				}
 			}
 			for _, cp := range caps[:2] {
@@ -277,7 +277,7 @@ func c03Configs(c *Ctx) []c03Cfg {
 				}
 			}
 			for _, ctor := range []string{"", "0", "-1", "marshal", "marshal-nested"} {
-				out = append(out, c03Cfg{listCfg{k, fifo, 0, false, false, 3, false, false, false, 0, "", false, false}, ctor, false, false})
+				out = append(out, c03Cfg{listCfg{k, fifo, 0, false, false, 3, false, false, false, 0, "", false, false, 0}, ctor, false, false})
 			}
 		}
 	}
